@@ -201,8 +201,11 @@ func c19Malform(rng *rand.Rand, terms []c19Term, orSep []bool) (string, string) 
 		}
 	}
 	i := rng.Intn(len(terms))
-	kind := []string{"unterminated-quote", "doubled-comma", "quote-glued-after-word", "quote-glued-before-word"}[rng.Intn(4)]
+	kind := []string{"unterminated-quote", "doubled-comma", "quote-glued-after-word", "quote-glued-before-word", "dangling-quote"}[rng.Intn(5)]
 	switch kind {
+	case "dangling-quote":
+		// good terms, an operator, then a quote which opens an (empty) string that is never closed
+		return c19Render(rng, terms, orSep) + []string{` "`, `,"`, ` , "`, "\t\"", ` "  `, `, " `}[rng.Intn(6)], kind
 	case "unterminated-quote":
 		if rng.Intn(2) == 0 {
 			terms[i].text = `"` + terms[i].text
@@ -962,11 +965,24 @@ func (w *c19World) stepFind(u *c19User, c *vfClient, isRoot bool) {
 		orSep[j] = rng.Intn(5) < 2
 	}
 	q := c19Render(rng, terms, orSep)
-	wantAnd, wantOr := c19Expect(terms, orSep, rw, true)
+	// every third search is a private one: the session's public query is cleared (it has priority) and the query
+	// is stored as fnd.private; login-looking terms are rewritten in public queries only
+	private := rng.Intn(3) == 0
+	wantAnd, wantOr := c19Expect(terms, orSep, rw, !private)
+	var fs *vfFrame
+	if private {
+		c.set("fnd", map[string]any{"desc": map[string]any{"public": "\u2421"}})
+		w.e.vfQuiesce()
+	}
 	mark := vfRec.mark()
-	fs := c.set("fnd", map[string]any{"desc": map[string]any{"public": q}})
+	if private {
+		fs = c.set("fnd", map[string]any{"desc": map[string]any{"private": q}})
+		w.r.Hit("private_query_not_rewritten")
+	} else {
+		fs = c.set("fnd", map[string]any{"desc": map[string]any{"public": q}})
+	}
 	if fs == nil || fs.code() >= 400 {
-		w.r.Violation("fnd-set-refused", fmt.Sprintf("{set fnd public=%q} refused: %s", q, frameStr(fs)), nil)
+		w.r.Violation("fnd-set-refused", fmt.Sprintf("{set fnd public/private=%q} refused: %s", q, frameStr(fs)), nil)
 		return
 	}
 	ans := c.get("fnd", "sub", nil)
@@ -987,7 +1003,7 @@ func (w *c19World) stepFind(u *c19User, c *vfClient, isRoot bool) {
 	if ans != nil && ans.Ctrl != nil {
 		code = ans.Ctrl.code()
 	}
-	step := fmt.Sprintf("fnd query %q by %s", q, c.name)
+	step := fmt.Sprintf("fnd query %q (private: %v) by %s", q, private, c.name)
 
 	// masked namespaces: only with tags the searcher carries
 	var carried []string
